@@ -75,6 +75,8 @@ PLACEMENTS = [
     "rnbqkbnr/ppp1p1pp/8/3pPp2/8/8/PPPP1PPP/RNBQKBNR w KQkq f6 0 3",
     "8/2p5/3p4/KP5r/1R3pPk/8/4P3/8 b - g3 0 1",
     "r3k2r/Pppp1ppp/1b3nbN/nP6/BBP1P3/q4N2/Pp1P2PP/R2Q1RK1 w kq - 0 1",
+    # promoted material: game phase above its nominal maximum of 24 (4 rooks, 5 queens, 2 minors = 30)
+    "r2qk2r/1Q3ppp/8/3b4/8/2N5/PPP1QPPP/R2QKQ1R w KQkq - 0 1",
 ]
 
 
